@@ -63,6 +63,12 @@ def check(ctx, rep):
         rep.ob('illegal.only-single-trailing-dot-dropped', 'the name is shortened before the legality test only by one trailing dot of a name with no other dot', ok,
                'shortened under %s: names such as A.B. or A.. lose their illegal trailing dot and are accepted' % sorted(facts), ctx.where(a))
     rep.floor('illegal.only-single-trailing-dot-dropped', len(cuts), 1, 'shortenings of the user name')
+    gde = ctx.fn(DISK + ':DiskDevice._get_dos_name_defext')
+    body_ = [x for x in gde.body if not (isinstance(x, ast.Expr) and isinstance(x.value, ast.Constant))]
+    strip_i = [i for i, x in enumerate(body_) if norm(x) == 'dos_name = dos_name.rstrip()']
+    ext_i = [i for i, x in enumerate(body_) if isinstance(x, ast.If) and 'defext' in norm(x.test) and "b'.' + defext" in norm(x)]
+    rep.ob('defext.strip-before-extension', 'trailing blanks are dropped before the default extension is appended (`PROG ` is PROG.BAS, not `PROG .BAS`)',
+           len(strip_i) == 1 and len(ext_i) == 1 and strip_i[0] < ext_i[0], '', ctx.where(gde))
     nn = [a for a in own_nodes(gn) if isinstance(a, ast.Assign) and norm(a.targets[0]) == 'norm_name']
     rep.ob('create.normalised-name', 'norm_name = dos_normalise_name(dos_name)', len(nn) == 1 and norm(nn[0].value) == 'dos_normalise_name(dos_name)', '', ctx.where(gn))
     bad = [n for n in own_nodes(gn) if isinstance(n, ast.If) and norm(n.test) == 'not dos_is_legal_name(norm_name)']
@@ -146,6 +152,7 @@ def variants(ctx):
         return lambda tree: f(mu.find_def(tree, f_name))
 
     return [
+        Va('extension-before-strip', 'break', DISK, in_fn('DiskDevice._get_dos_name_defext', _strip_last), expect='defext.strip-before'),
         Va('any-trailing-dot-dropped', 'break', DISK,
            in_fn('DiskDevice._get_native_name', lambda fn: mu.replace_expr(fn, mu.text_is("dos_name[-1:] == b'.' and b'.' not in dos_name[:-1]"), "dos_name.endswith(b'.')")), expect='illegal.only-single'),
         Va('created-name-not-normalised', 'break', DISK,
@@ -182,4 +189,14 @@ def _upper_last(fn):
     fn.body.remove(u)
     k = [i for i, s in enumerate(fn.body) if norm(s) == 'trunk, ext = (trunk[:8], ext[:3])'][0]
     fn.body.insert(k + 1, u)
+    return True
+
+
+def _strip_last(fn):
+    st = [x for x in fn.body if norm(x) == 'dos_name = dos_name.rstrip()']
+    ret = [x for x in fn.body if isinstance(x, ast.Return)]
+    if len(st) != 1 or len(ret) != 1:
+        return False
+    fn.body.remove(st[0])
+    fn.body.insert(fn.body.index(ret[0]), st[0])
     return True
